@@ -85,16 +85,19 @@ def run(ctx):
             arg = enums[f](nv) if (f in enums and k % 2 == 0) else nv
             resl = []
             for j, o in enumerate(vis_words):
-                if j % 2:
-                    v = Visualization(o)
-                    setattr(v, attr, arg)
-                    resl.append([int(v), int(getattr(v, attr))])
-                else:                         # through the module attribute
-                    mod.visualization = o
-                    v = mod.visualization
-                    setattr(v, attr, arg)
-                    mod.visualization = int(v)
-                    resl.append([int(mod.visualization), int(getattr(mod.visualization, attr))])
+                try:
+                    if j % 2:
+                        v = Visualization(o)
+                        setattr(v, attr, arg)
+                        resl.append([int(v), int(getattr(v, attr))])
+                    else:                         # through the module attribute
+                        mod.visualization = o
+                        v = mod.visualization
+                        setattr(v, attr, arg)
+                        mod.visualization = int(v)
+                        resl.append([int(mod.visualization), int(getattr(mod.visualization, attr))])
+                except Exception:             # a word the library cannot decode / a setter that raises: never the expected result
+                    resl.append([-1, -1])
             events.append({"op": "sub", "f": f, "new": nv, "olds": vis_words, "res": resl})
             ctx.cov["evaluations"] += len(vis_words)
             ctx.cov["distinct_nontrivial"] += nontriv(vis_words, resl, *shifts[f])
@@ -112,8 +115,16 @@ def run(ctx):
         gres.append([["note_val_xx", n.val_xx], ["note_val_yy", n.val_yy]])
     events.append({"op": "get", "word": "note_val", "words": gw, "res": gres})
     vw = vis_words[:: (7 if q else 3)]
-    events.append({"op": "get", "word": "vis", "words": vw,
-                   "res": [[[f, int(getattr(Visualization(o), a))] for f, a in VIS_FIELDS.items()] for o in vw]})
+    def visget(o):
+        out = []
+        for f, a in VIS_FIELDS.items():
+            try:
+                out.append([f, int(getattr(Visualization(o), a))])
+            except Exception:
+                out.append([f, -1])
+        return out
+    vw = sorted(set(vw + [0x1A3202C2, 0x000C01C1, 0x100000C0, 0x40, 0x80, 0x700000C4]))
+    events.append({"op": "get", "word": "vis", "words": vw, "res": [visget(o) for o in vw]})
     ctx.cov["evaluations"] += 2 * len(gw) + len(vw)
     # ---- note cell codec: every NOTECMD x velocity x boundary 16-bit values
     cmds = [int(c) for c in api.NOTECMD]
